@@ -342,6 +342,90 @@ def mutate_text(r, text):
     return head[:st + m.start()] + ' ' + new + ' ' + head[st + m.end():] + tail, kind
 
 
+
+def entry_points(ctx, r, cqm, text, want, src):
+    """the text `lp.dumps` wrote, through every accepted form of `lp.loads` / `lp.load` / `lp.dump`: same reading as `lp.loads(text)`
+    gave in the child interpreter (which has just read this very text, so no assertion of the C++ code can fire here)"""
+    import os, tempfile
+    d = tempfile.mkdtemp(prefix='c12-')
+    path = os.path.join(d, 'm.lp')
+    hdr = '\\ written by a test\n\\ ' + 'x' * r.randrange(0, 90) + '\n'
+    with open(path, 'w', newline='') as f:
+        f.write(text)
+    hpath = os.path.join(d, 'h.lp')
+    with open(hpath, 'w', newline='') as f:
+        f.write(hdr + text)
+    dpath = os.path.join(d, 'd.lp')
+
+    def via_dump_text():
+        with open(dpath, 'w') as f:
+            lp.dump(cqm, f)
+        return lp.load(dpath)
+
+    def via_dump_then_handle():
+        with open(dpath, 'w+') as f:
+            lp.dump(cqm, f)
+            f.flush()
+            f.seek(0)
+            return lp.load(f)
+
+    def seeked():
+        with open(hpath, 'rb') as f:
+            f.seek(len(hdr.encode()))
+            return lp.load(f)
+
+    def after_readline():
+        with open(hpath, 'rb') as f:
+            f.readline(); f.readline()
+            return lp.load(f)
+
+    def rb():
+        with open(path, 'rb') as f:
+            return lp.load(f)
+
+    def rt():
+        with open(path) as f:
+            return lp.load(f)
+
+    def twice_same_handle():
+        with open(path, 'rb') as f:
+            a = lp.load(f)
+            b = lp.load(f)          # position still 0 (read by name) or moved: either way the same file
+            return b if canon_real(a) == want else a
+
+    forms = [('lp.loads(str)', lambda: lp.loads(text), 'lp.loads(text)'),
+             ('lp.loads(bytes)', lambda: lp.loads(text.encode()), 'lp.loads(text.encode())'),
+             ('lp.loads(bytearray)', lambda: lp.loads(bytearray(text.encode())), 'lp.loads(bytearray(text.encode()))'),
+             ('lp.load(path: str)', lambda: lp.load(path), None), ('lp.load(path: bytes)', lambda: lp.load(path.encode()), None),
+             ('lp.load(binary file at 0)', rb, None), ('lp.load(text file at 0)', rt, None),
+             ('lp.load(BytesIO)', lambda: lp.load(io.BytesIO(text.encode())), 'import io\nlp.load(io.BytesIO(text.encode()))'),
+             ('lp.load(BytesIO positioned after a header)', lambda: (lambda b: (b.seek(len(hdr.encode())), lp.load(b))[1])(io.BytesIO((hdr + text).encode())), None),
+             ('lp.load(binary file positioned after a header: seek)', seeked, None),
+             ('lp.load(binary file positioned after a header: readline)', after_readline, None),
+             ('lp.load(same handle twice)', twice_same_handle, None),
+             ('lp.dump(text file) + lp.load(path)', via_dump_text, None), ('lp.dump(w+ file) + seek(0) + lp.load(handle)', via_dump_then_handle, None)]
+    try:
+        for name, f, call in forms:
+            ctx.tick('entry point: ' + name)
+            ctx.case(('entry', name, text), nontrivial=True)
+            try:
+                got = canon_real(f())
+                msg = None if got == want else f'read as {got}, lp.loads(text) reads {want}'
+            except Exception as e:  # noqa
+                msg = f'{type(e).__name__}: {e}'
+            if msg is not None:
+                rep = None
+                if call is not None:
+                    rep = (PRE + src + 'text = lp.dumps(cqm)\nback = ' + call + '\n'
+                           'assert set(back.variables) == set(cqm.variables) and list(back.constraints) == list(cqm.constraints)\n'
+                           'assert coeffs(back.objective) == coeffs(cqm.objective)\n')
+                ctx.fail('property', name, 'entry point reads another model than lp.loads(text)', msg, repro=rep, detail=dict(text=text[:600]))
+                break
+    finally:
+        import shutil
+        shutil.rmtree(d, ignore_errors=True)
+
+
 def run(ctx):
     r = ctx.rng
     from harness.props.c12_hand import RealLoader
@@ -493,6 +577,11 @@ def run(ctx):
             ic, msg, assertion = what
             ctx.fail('property', 'lp.loads(lp.dumps(cqm))', ic, msg, repro=PRE + src + 'back = lp.loads(lp.dumps(cqm))\n' + assertion + '\n', detail=dict(text=text[:600]))
             continue
+        # (i') every public entry point (`observe_at`: dumps / loads / dump / load) on the same model: str / bytes text, path as
+        # str / bytes, binary and text file objects (at position 0: read by name), a nameless BytesIO, a binary file object
+        # positioned after a comment header (`tell() != 0`: copied from the current position), a file written by `lp.dump`
+        if mi % 25 == 7:
+            entry_points(ctx, r, cqm, text, back_canon, src)
         # (ii) real parser vs specification-level reader on the same text
         lines.append('load ' + text.encode().hex())
         expect.append(('REAL', (bvars, bobj, bcons)))
